@@ -91,6 +91,17 @@ Example ctr_reinit_example :
   end = true.
 Proof. vm_compute. reflexivity. Qed.
 
+(* -------- white-box seek: a stream positioned 1 block before the 2^16 and before the 2^32 block
+   boundary, a partial block first, then one call across the boundary, on both paths *)
+Example ctr_seek_example :
+  forallb (fun B =>
+    forallb (fun hw =>
+      list_eqb (run_outputs E_toy hw (seek (16 * B) (init2 15 255 5 junk)) [N_seq 0 4; N_seq 0 100; N_seq 0 1])
+               (ctr_spec_from E_toy 5 B (N_seq 0 4 ++ N_seq 0 100 ++ N_seq 0 1)))
+      [true; false])
+    [65535; 4294967295; 72057594037927935] = true.
+Proof. vm_compute. reflexivity. Qed.
+
 (* -------- the 2^64-byte bound of the theorems is the domain of the C's uint64_t bytectr: from a
    state 16 bytes before the wrap (it satisfies ctr_inv) the second block is encrypted under
    counter 0 again, not under 2^60 *)
